@@ -140,6 +140,23 @@ def run(ctx):
     for _ in range(nt):
         n = rng.randint(1, 7)
         traces.append(walk(rng, n, rng.randint(0, n + 1), rng.randint(0, 6), ln))
+    # the stateless elections on LARGE member lists (up to 64 members; the model and the enumerated cases stop at a handful): exact ties, one vote
+    # more / fewer than the quorum, warnings as filler - a count is a count at any size
+    big = []
+    for n in range(6, 65 if q else 129):
+        ev = []
+        for kind in ("majority", "min", "ordered"):
+            for nd in sorted({n // 2, n // 2 + 1, max(0, n // 2 - 1), (n + 1) // 2, rng.randint(0, n)}):
+                a, c = (0, 0) if kind == "majority" else (rng.choice([nd, nd + 1, max(0, nd - 1), n, n + 1]), rng.choice([0, 1, 2]) if kind == "ordered" else 0)
+                if kind == "ordered":
+                    a = max(0, a - c)
+                v = ["drift"] * nd + [rng.choice(["None", "warning"]) for _ in range(n - nd)]
+                rng.shuffle(v)
+                obj = Maj() if kind == "majority" else (Min(approvals_needed=a) if kind == "min" else Ord(approvals_needed=a, confirmations_needed=c))
+                ev.append({"op": "stateless", "kind": kind, "a": a, "c": c, "v": v, "out": st(obj([Stub(x) for x in v])), "cnt": []})
+        big.append({"cfg": {"n": 1, "sens": 0, "wait": 0}, "ev": ev})
+    ctx.validate("Election", big, "stateless elections on member lists of 6..%d members (ties and near-ties)" % (64 if q else 128),
+                 replay=lambda i: {"big": big[i]["ev"]}, nontrivial=lambda t: any(e["out"] != "None" for e in t["ev"]))
     ctx.validate("Election", traces, "ConfirmedElection random walks", sabotage=sabotage,
                  replay=lambda i: {"walk": traces[i]["cfg"], "votes": [e["v"] for e in traces[i]["ev"]]},
                  nontrivial=lambda t: any(e["out"] != "None" for e in t["ev"]))
@@ -158,6 +175,14 @@ def replay(ctx, bundle):
         ctx.traces += 1
         ctx.nontrivial += 2
         ctx.states = ctx.transitions = 1
+        return ctx.finish()
+    if "big" in r:
+        Maj, Min, Ord, _ = elections()
+        ev = []
+        for e in r["big"]:
+            obj = Maj() if e["kind"] == "majority" else (Min(approvals_needed=e["a"]) if e["kind"] == "min" else Ord(approvals_needed=e["a"], confirmations_needed=e["c"]))
+            ev.append(dict(e, out=st(obj([Stub(x) for x in e["v"]]))))
+        ctx.validate("Election", [{"cfg": {"n": 1, "sens": 0, "wait": 0}, "ev": ev}], "replay", replay=lambda i: r)
         return ctx.finish()
     _, _, _, Conf = elections()
     w = r["walk"]
